@@ -73,18 +73,14 @@ theorem padInt_of {i : Int} {n : Nat} (w : Nat) (h : i = n) : padInt w i = pad w
   have : ¬ ((n : Int) < 0) := by omega
   simp [padInt, pad, padDigits, natStr, natDigits, this]
 
-/-- the formatting of a non-negative duration of `a` microseconds, after the sign -/
+/-- the formatting of a non-negative duration of `a` microseconds, after the sign: what is left of the function once
+the attribute reads and the integer divisions are evaluated (the same whatever order the source does them in) -/
 theorem body (a : Nat) (sg : String) :
-    (do
-      let days_ ← getattr (mkDelta (a : Int) : D) "days"
-      let seconds_ ← getattr (mkDelta (a : Int) : D) "seconds"
-      let microseconds_ ← getattr (mkDelta (a : Int) : D) "microseconds"
-      let minutes_ ← floordiv seconds_ (OVal.int (60))
-      let seconds_ ← Utv.Obj.mod seconds_ (OVal.int (60))
-      let hours_ ← floordiv minutes_ (OVal.int (60))
-      let minutes_ ← Utv.Obj.mod minutes_ (OVal.int (60))
-      let ms_ ← (do if (← truthy microseconds_) then pure (← strFormat (OVal.str ".{:06d}") [microseconds_]) else pure (OVal.str ""))
-      strFormat (OVal.str "{}P{}DT{:02d}H{:02d}M{:02d}{}S") [OVal.str sg, days_, hours_, minutes_, seconds_, ms_])
+    Except.bind (if ((a : Int) % 1000000 != 0) = true then strFormat (V := Unit) (OVal.str ".{:06d}") [OVal.int ((a : Int) % 1000000)]
+            else Except.ok (OVal.str ""))
+      (fun v => strFormat (OVal.str "{}P{}DT{:02d}H{:02d}M{:02d}{}S")
+          [OVal.str sg, OVal.int ((a : Int) / 86400000000), OVal.int ((a : Int) % 86400000000 / 1000000 / 60 / 60),
+            OVal.int ((a : Int) % 86400000000 / 1000000 / 60 % 60), OVal.int ((a : Int) % 86400000000 / 1000000 % 60), v])
     = (.ok (.str (String.ofList (sg.toList ++ ('P' :: natStr (a / 86400000000) ++ 'D' :: 'T' ::
         pad 2 (a % 86400000000 / 1000000 / 60 / 60) ++ 'H' :: pad 2 (a % 86400000000 / 1000000 / 60 % 60) ++ 'M' ::
         pad 2 (a % 86400000000 / 1000000 % 60) ++
@@ -94,22 +90,22 @@ theorem body (a : Nat) (sg : String) :
   have h3 : (a : Int) % 86400000000 / 1000000 / 60 % 60 = ((a % 86400000000 / 1000000 / 60 % 60 : Nat) : Int) := by omega
   have h4 : (a : Int) % 86400000000 / 1000000 % 60 = ((a % 86400000000 / 1000000 % 60 : Nat) : Int) := by omega
   have h5 : (a : Int) % 1000000 = ((a % 86400000000 % 1000000 : Nat) : Int) := by omega
-  simp only [ga_days, ga_seconds, ga_micro, fd60, md60, truthy_int, bind, Except.bind, pure, Except.pure]
   by_cases hm : a % 86400000000 % 1000000 = 0
   · have hz : ((a : Int) % 1000000 != 0) = false := by
       have : (a : Int) % 1000000 = 0 := by omega
       simp [this]
-    simp only [hz, Bool.false_eq_true, if_false, fmt_main, intRepr_of h1, padInt_of 2 h2, padInt_of 2 h3, padInt_of 2 h4]
+    simp only [hz, Bool.false_eq_true, if_false, Except.bind, fmt_main, intRepr_of h1, padInt_of 2 h2, padInt_of 2 h3, padInt_of 2 h4]
     refine congrArg _ (congrArg _ (congrArg _ ?_))
     have hm2 : a % 1000000 = 0 := by omega
     simp [hm2]
   · have hz : ((a : Int) % 1000000 != 0) = true := by
       have : (a : Int) % 1000000 ≠ 0 := by omega
       simp [this]
-    simp only [hz, if_true, fmt_ms, fmt_main, intRepr_of h1, padInt_of 2 h2, padInt_of 2 h3, padInt_of 2 h4, padInt_of 6 h5]
+    simp only [hz, if_true, fmt_ms, Except.bind, fmt_main, intRepr_of h1, padInt_of 2 h2, padInt_of 2 h3, padInt_of 2 h4, padInt_of 6 h5]
     refine congrArg _ (congrArg _ (congrArg _ ?_))
     have hm2 : a % 1000000 ≠ 0 := by omega
     simp [hm2]
+
 theorem C14_gen_duration_iso_string (W : Utv.Obj.World Unit) (us : Int) :
     Encode.duration_iso_string W (mkDelta us) = .ok (.str (String.ofList (durationIso us))) := by
   gen_obligation "C14_gen_duration_iso_string: the regenerated code (Utv.Gen) is no longer equal to the hand model here" by
@@ -124,18 +120,17 @@ theorem C14_gen_duration_iso_string (W : Utv.Obj.World Unit) (us : Int) :
         have e : us * -1 = ((us.natAbs : Nat) : Int) := by omega
         simp only [mul, deltaUs_mk, ← e]
         rfl
-      have hb := body us.natAbs "-"
-      simp only [bind, Except.bind, pure, Except.pure] at hb
-      simp only [h0, h1, hlt, hneg, hm, bind, Except.bind, pure, Except.pure, decide_true, if_true]
-      rw [hb]
+      simp only [h0, h1, hlt, hneg, hm, bind, Except.bind, pure, Except.pure, decide_true, if_true, ga_days, ga_seconds,
+        ga_micro, fd60, md60, truthy_int]
+      refine (body us.natAbs "-").trans ?_
       refine congrArg _ (congrArg _ (congrArg _ ?_))
       simp [durationIso, hneg]
     · have e : us = ((us.natAbs : Nat) : Int) := by omega
-      have hb := body us.natAbs ""
-      simp only [bind, Except.bind, pure, Except.pure] at hb
-      simp only [h0, h1, hlt, hneg, bind, Except.bind, pure, Except.pure, decide_false, Bool.false_eq_true, if_false]
       have hn : ¬ ((us.natAbs : Nat) : Int) < 0 := by omega
-      rw [e, hb]
+      simp only [h0, h1, hlt, hneg, bind, Except.bind, pure, Except.pure, decide_false, Bool.false_eq_true, if_false]
+      rw [e]
+      simp only [bind, Except.bind, pure, Except.pure, ga_days, ga_seconds, ga_micro, fd60, md60, truthy_int]
+      refine (body us.natAbs "").trans ?_
       refine congrArg _ (congrArg _ (congrArg _ ?_))
       simp [durationIso, hn]
 
